@@ -1768,3 +1768,57 @@ from ..core import guard_rules  # noqa: E402
 
 guard_rules(globals(), extra=("new_group_block", "categoric_rules", "ownership_rule", "eq_compares_fields", "dtype_narrowing",
                                "one_shot_iterators", "groupby_needs_sorted"))
+
+
+def formula_text_untouched(prog, rep, rule):
+    """The scanner must see the caller's formula text itself: in design_matrices the first argument of model_description(...)
+    and in model_description the first argument of Scanner(...) is the function's own first parameter, and that name is never
+    re-bound (strings are immutable, so re-binding is the only way to hand on another text: stripped, whitespace-collapsed, with a
+    leading `~` removed...).  The tilde count, the quote handling and the end-of-input check all act on what the scanner is given."""
+    for fq, callee in (("model_description.model_description", "Scanner"), ("matrices.design_matrices", "model_description")):
+        md = prog.fn(fq)
+        scans = [c for c in calls_in(md.node) if (dotted(c.func) or "").split(".")[-1] == callee]
+        p = md.params[0] if md.params else None
+        rebound = [n for n in ast.walk(md.node) if isinstance(n, ast.Name) and n.id == p and isinstance(n.ctx, (ast.Store, ast.Del))]
+        ok = len(scans) == 1 and p is not None and len(scans[0].args) >= 1 and isinstance(scans[0].args[0], ast.Name) and scans[0].args[0].id == p and not rebound \
+            and not any(k.arg is None for k in scans[0].keywords)
+        obl(rep, md, rebound[0] if rebound else (scans[0] if scans else md.node), rule, ok,
+            f"{md.name} hands its `{p}` argument to {callee}(...) as it is (never re-bound, no derived text)", "",
+            f"the text given to {callee}(...) is not the caller's formula: " + (f"`{p}` is re-bound at line {rebound[0].lineno}" if rebound else
+                                                                              (unparse(scans[0]) if scans else f"no single {callee}(...) call")))
+
+
+def _axisless_squeezes(tree):
+    out = []
+    for c in ast.walk(tree):
+        if not isinstance(c, ast.Call):
+            continue
+        d = dotted(c.func) or ""
+        is_sq = d in ("np.squeeze", "numpy.squeeze") and len(c.args) == 1 or (isinstance(c.func, ast.Attribute) and c.func.attr == "squeeze" and not c.args
+                                                                                and d not in ("np.squeeze", "numpy.squeeze"))
+        if is_sq and not any(k.arg == "axis" for k in c.keywords):
+            out.append(c)
+    return out
+
+
+def no_axisless_squeeze(prog, rep, rule):
+    """An axis-less squeeze removes EVERY axis of length one - also the row axis when a frame has a single observation: a (1, k)
+    block becomes (k,), rows no longer match observations (and column_stack of the blocks fails or transposes).  No function on
+    the evaluation path (terms, utils, matrices, transforms) may apply one; `squeeze(axis=1)` only drops a single column axis.
+    Expected count on a correct tree is zero, so the recogniser is run on a positive control on every run."""
+    control = ast.parse("def f(x):\n    a = np.squeeze(np.column_stack(x))\n    b = x.squeeze()\n    c = np.squeeze(x, axis=1)\n    return a, b, c")
+    if len(_axisless_squeezes(control)) != 2:
+        raise AnalysisError(f"{rule}: the squeeze recogniser does not fire on its positive control")
+    n = 0
+    for fq, f in sorted(prog.functions.items()):
+        mname = f.module.name
+        if f.parent is not None or fq != f.qual:
+            continue
+        if not (mname.startswith("formulae.terms") or mname in ("formulae.utils", "formulae.matrices", "formulae.transforms")):
+            continue
+        n += 1
+        for c in _axisless_squeezes(f.node):
+            rep.bad(rule, f.loc(c), f.qual, short(c), "squeeze without an axis also removes the row axis of a one-row block: "
+                    "the result is (k,) instead of (1, k) for a single observation")
+    rep.ok(rule, "formulae/", "evaluation path", f"no axis-less squeeze in {n} functions of terms/, utils, matrices, transforms",
+           "positive control matched 2 of 3 calls")
